@@ -10,7 +10,7 @@ def run(ctx):
         "thorough: triples) is run through gaftools order_gfa in base / shuffled / reversed-gz / stale-tag variants, every chromosome "
         "order, and under two other PYTHONHASHSEEDs (subset); TLC (Check_Chain.V06) decides; non-trivial = >1 chromosome or >3 elements"
     )
-    cfgs = ["BubbleChain_q.cfg", "BubbleChain_q2.cfg", "BubbleChain_long.cfg"] if not ctx.thorough else ["BubbleChain_t.cfg", "BubbleChain_q2.cfg", "BubbleChain_t3.cfg", "BubbleChain_long.cfg"]
+    cfgs = ["BubbleChain_q.cfg", "BubbleChain_q2.cfg", "BubbleChain_long.cfg", "BubbleChain_w.cfg"] if not ctx.thorough else ["BubbleChain_t.cfg", "BubbleChain_q2.cfg", "BubbleChain_t3.cfg", "BubbleChain_long.cfg", "BubbleChain_w.cfg"]
     # design check: the per-chromosome loop as a machine (OrderChrom / SkipChrom) satisfies C06 and C18 on every generated graph and order
     r = ctx.tlc("OrderRun", "OrderRun_q.cfg", coverage=False)
     if not r.ok:
